@@ -70,6 +70,31 @@ func InitGenesis(ctx context.Context, k keeper.Keeper, genState types.GenesisSta
 		}
 	}
 
+	// The number of bids matched at the last end time of a batch auction is not part of
+	// the genesis state. It equals the number of its bids flagged as matched, so restore
+	// it from the flags: an auction imported in the middle of its extended rounds must take
+	// the same decision at its next end time as the chain it was exported from.
+	matchedBidsLen := map[uint64]int64{}
+	for _, elem := range genState.BidList {
+		if elem.IsMatched {
+			matchedBidsLen[elem.AuctionId]++
+		}
+	}
+	for _, elem := range genState.AuctionList {
+		auction, err := types.UnpackAuction(elem)
+		if err != nil {
+			return err
+		}
+		if auction.GetType() != types.AuctionTypeBatch || auction.GetStatus() != types.AuctionStatusStarted {
+			continue
+		}
+		if matchedLen := matchedBidsLen[auction.GetId()]; matchedLen > 0 {
+			if err := k.SetMatchedBidsLen(ctx, auction.GetId(), matchedLen); err != nil {
+				return err
+			}
+		}
+	}
+
 	// Set all the vestingQueue
 	for _, elem := range genState.VestingQueueList {
 		_, err := k.Auction.Get(ctx, elem.AuctionId)
